@@ -24,6 +24,7 @@ if False:
 
 IMPORT_DELIMETERS = string.whitespace + '(,'
 IMPORT_END_DELIMETERS = string.whitespace + '),.;'
+DEF_END_DELIMETERS = string.whitespace + '(:['
 
 
 class Unresolved(object):
@@ -247,8 +248,15 @@ class SourceScope(Scope):
         source = self.source.with_mark(position)
         return SourceScope(source)
 
-    def find_id_loc(self, id, start, shift=0, delimeters=True):
-        # type: (str, loc_t, int, bool) -> loc_t
+    def find_def_loc(self, name, start):
+        # type: (str, loc_t) -> loc_t
+        """Position of the name in a def/class header: the first occurrence that is a
+        whole word ('async def de' must not stop at the 'de' of 'def')"""
+        return self.find_id_loc(name, start, end_delimeters=DEF_END_DELIMETERS)
+
+    def find_id_loc(self, id, start, shift=0, delimeters=True,
+                    end_delimeters=IMPORT_END_DELIMETERS):
+        # type: (str, loc_t, int, bool, str) -> loc_t
         sl, pos = start
         source = '\n'.join(self.source.lines[sl-1:sl+50])
         source_len = len(source)
@@ -259,7 +267,7 @@ class SourceScope(Scope):
 
             if pos == 0 or not delimeters or source[pos-1] in IMPORT_DELIMETERS:
                 ep = pos + len(id)
-                if ep >= source_len or not delimeters or source[ep] in IMPORT_END_DELIMETERS:
+                if ep >= source_len or not delimeters or source[ep] in end_delimeters:
                     return (sl + source.count('\n', 0, pos),
                             pos - source.rfind('\n', 0, pos) - 1 + shift)
 
@@ -341,7 +349,7 @@ class FuncScope(Scope, Location, Resolvable):
         else:
             fnode = node  # type: FunctionDef  # type: ignore[assignment]
             self.name = fnode.name
-            self.declared_at = top.find_id_loc(' ' + fnode.name, np(fnode), 1, False)
+            self.declared_at = top.find_def_loc(fnode.name, np(fnode))
             self.location = get_first_body_node_loc(fnode.body) or (np(fnode.body[0])[0], np(fnode)[1] + 4)
             self.decorator_list = fnode.decorator_list
 
@@ -407,7 +415,7 @@ class ClassScope(Scope, Location, Resolvable):
         # type: (Scope, ClassDef, SourceScope) -> None
         Scope.__init__(self, parent, top)
         self.name = node.name
-        self.declared_at = top.find_id_loc(' ' + node.name, np(node), 1, False)
+        self.declared_at = top.find_def_loc(node.name, np(node))
         self.location = np(node.body[0])
         self.flow = self.top.add_flow(Flow('class', self))
         self._bases = node.bases
